@@ -436,6 +436,18 @@ class Real:
         if op == 'delist':
             n = w.name_to_real(t[1])
             return lambda: s.delist(n)
+        if op == 'gc':
+            # conditional drop (if_exists, if_unused): collect only when nothing else refers to it
+            i = int(t[1])
+            if not self.present(i):
+                return lambda: s
+            h = self.obj(i)
+
+            def do_gc():
+                if any(nat(r.id) != i for r in s.get_referrers(h)):
+                    return s
+                return s.delete(s.get_by_id(uid(i)))
+            return do_gc
         if op == 'drop':
             i = int(t[1])
             if not self.present(i):
@@ -776,6 +788,8 @@ class Gen:
             tag = types.get(i, 2)
             d = w.desc[tag]
             return f"cunset {i} {rng.choice(d['single'] + d['coll'] + [d['name']])}"
+        if rng.random() < 0.3:
+            return f'gc {self.pick_id(present, 0.93)}'
         return f'drop {self.pick_id(present, 0.93)}'
 
 
